@@ -20,7 +20,7 @@ type LiveEvent struct {
 // relays every message a node handles from its own queue to all other nodes with seeded random delay,
 // duplication and reordering (standing in for the reactor's gossip), and records every handled input with
 // the round state after it. It returns when every honest node has committed `heights` blocks or after `limit`.
-func RunLive(dir string, powers []int64, byz []int, maxRound int64, heights int64, seed int64, limit time.Duration) (*Sim, []LiveEvent, error) {
+func RunLive(dir string, powers []int64, byz []int, maxRound int64, heights int64, seed int64, limit time.Duration, scale int) (*Sim, []LiveEvent, error) {
 	pbft.VerifTraceMaxRound = maxRound
 	var (
 		mtx    sync.Mutex
@@ -45,7 +45,7 @@ func RunLive(dir string, powers []int64, byz []int, maxRound int64, heights int6
 	})
 	defer pbft.VerifTraceFn.Store((func(cs *pbft.ConsensusState, ev pbft.VerifEvent))(nil))
 
-	s, err := newSim(dir, powers, byz, maxRound, true)
+	s, err := newSimScale(dir, powers, byz, maxRound, true, scale)
 	if err != nil {
 		return nil, nil, err
 	}
@@ -149,7 +149,7 @@ func RunLive(dir string, powers []int64, byz []int, maxRound int64, heights int6
 }
 
 // LiveTrace converts recorded events into the ndjson records validated by specs/tendermint/Trace_Tendermint.tla.
-func (s *Sim) LiveTrace(events []LiveEvent) []map[string]interface{} {
+func (s *Sim) LiveTrace(events []LiveEvent, heights int64) []map[string]interface{} {
 	// pass 1: name the blocks: an own proposal followed by its own part
 	pend := map[int]*types.Proposal{}
 	propBy := map[string]int{}
@@ -182,7 +182,14 @@ func (s *Sim) LiveTrace(events []LiveEvent) []map[string]interface{} {
 		}
 	}
 	var out []map[string]interface{}
+	cur := map[int]int64{} // height of each node before the event
 	for _, le := range events {
+		// what a node does after it has committed the target height is not part of the recorded execution (the run is
+		// stopped at an arbitrary moment there: e.g. a proposal whose block part was never handled)
+		if h, ok := cur[le.Node]; ok && h > heights {
+			continue
+		}
+		cur[le.Node] = le.Ev.Post.Height
 		rec := map[string]interface{}{"n": int64(le.Node), "seq": int64(le.Ev.Seq)}
 		if le.Ev.Kind == "timeout" {
 			rec["a"] = "Timeout"
